@@ -295,19 +295,19 @@ func (c *c05Case) runWide(ctx *core.Ctx, n int) {
 
 // c05Places: where an include can be written. %s is the include (either spelling).
 var c05Places = map[string]string{
-	"svg":       `<svg viewBox="0 0 9 9"><g>%s</g></svg>`,
-	"math":      `<math><mrow>%s</mrow></math>`,
-	"table":     `<table><tbody><tr><td>%s</td></tr></tbody></table>`,
-	"list":      `<ul><li>%s</li></ul>`,
-	"p":         `<p>text %s more</p>`,
-	"button":    `<button type="button">%s</button>`,
-	"pre":       `<pre>%s</pre>`,
-	"tmplif":    `<template v-if="o">%s</template>`,
-	"details":   `<details><summary>s</summary>%s</details>`,
+	"svg":     `<svg viewBox="0 0 9 9"><g>%s</g></svg>`,
+	"math":    `<math><mrow>%s</mrow></math>`,
+	"table":   `<table><tbody><tr><td>%s</td></tr></tbody></table>`,
+	"list":    `<ul><li>%s</li></ul>`,
+	"p":       `<p>text %s more</p>`,
+	"button":  `<button type="button">%s</button>`,
+	"pre":     `<pre>%s</pre>`,
+	"tmplif":  `<template v-if="o">%s</template>`,
+	"details": `<details><summary>s</summary>%s</details>`,
 	// (not inside <foreignObject>: golang.org/x/net/html loses a <template> there together with
 	// everything that follows it, before vuego sees the document)
-	"label":     `<label>l %s</label>`,
-	"heading":   `<h2>%s</h2>`,
+	"label":   `<label>l %s</label>`,
+	"heading": `<h2>%s</h2>`,
 }
 
 // runPlace: a registered shorthand tag behaves exactly like the equivalent <template include>
@@ -316,16 +316,29 @@ func (c *c05Case) runPlace(ctx *core.Ctx, place string) {
 	ctx.NonTrivial()
 	comp := "---\nfill: red\n---\n<template :required=\"cx, r\"><circle :cx=\"cx\" :r=\"r\" :fill=\"fill\" data-l=\"{{ label }}\">{{ cx | type }}</circle></template>"
 	props := ` :cx="int7" r="2" fill="blue" label="dot {{ o }}"`
+	if c.Req == "crlf" || c.Req == "trail" {
+		// the component file as an editor on Windows saves it / with blanks after the closing ---
+		if c.Req == "crlf" {
+			comp = strings.ReplaceAll(comp, "\n", "\r\n")
+		} else {
+			comp = strings.Replace(comp, "\n---\n", "\n---  \n", 1)
+		}
+		props = ` :cx="int7" r="2" label="dot {{ o }}"` // fill comes from the front-matter only
+	}
 	if c.Req == "a" {
 		props = ` :cx="int7" label="x"` // r is missing
 	}
 	render := func(inc string) (string, error) {
-		files := Files{"components/IconDot.vuego": comp, "page.vuego": `<div id="inc">` + fmt.Sprintf(c05Places[place], inc) + `</div><p id="leak">{{ cx }}{{ r }}</p>`}
+		files := Files{"components/IconDot.vuego": comp, "components/Other.vuego": `<b>OTHER</b>`, "page.vuego": `<div id="inc">` + fmt.Sprintf(c05Places[place], inc) + `</div><p id="leak">{{ cx }}{{ r }}</p>`}
 		ctx.Eval(1)
 		return renderPage(files, "page.vuego", map[string]any{"o": "OUT", "int7": 7}, vuego.WithComponents())
 	}
 	explicit, err1 := render(`<template include="components/IconDot.vuego"` + props + `></template>`)
-	short, err2 := render(`<icon-dot` + props + `></icon-dot>`)
+	shortProps := props
+	if c.Req == "incattr" {
+		shortProps = ` include="components/Other.vuego"` + props // the tag names the file, not an attribute of that name
+	}
+	short, err2 := render(`<icon-dot` + shortProps + `></icon-dot>`)
 	if (err1 != nil) != (err2 != nil) || explicit != short {
 		ctx.Violation("shorthand-differs", "place/"+place, "req="+c.Req, fmt.Sprintf("<template include> gives %q (err %v); the shorthand tag gives %q (err %v)", clip(explicit, 300), err1, clip(short, 300), err2))
 		return
@@ -551,6 +564,11 @@ func init() {
 			for place := range c05Places {
 				emit(&c05Case{Shape: "place:" + place, Req: "none"})
 				emit(&c05Case{Shape: "place:" + place, Req: "a"})
+				emit(&c05Case{Shape: "place:" + place, Req: "incattr"})
+				if place == "list" || place == "p" {
+					emit(&c05Case{Shape: "place:" + place, Req: "crlf"})
+					emit(&c05Case{Shape: "place:" + place, Req: "trail"})
+				}
 			}
 			for n := 1; n <= 14; n++ {
 				emit(&c05Case{Shape: fmt.Sprintf("wide:%d", n)})
